@@ -19,6 +19,33 @@ p = os.path.join(ROOT, "tools", "manifest_extra.json")
 if os.path.exists(p):
     extra = json.load(open(p))
 CHECKS.update({k: tuple(v) for k, v in extra.get("checks", {}).items()})
+# texts delivered by the per-property build notes (notes/CNN.md)
+import re, subprocess
+def from_notes(i):
+    f = os.path.join(ROOT, "notes", f"{i}.md")
+    if not os.path.exists(f):
+        return None
+    got = {}
+    for line in open(f):
+        m = re.match(r"^[\s*\-`]*(technique|level_claimed\.text|level_note)`?\s*[:=]\s*[`\"“](.*)[`\"”][\s.]*$", line.strip(), re.I)
+        if m and m.group(1).lower() not in got:
+            got[m.group(1).lower()] = m.group(2).strip()
+    if len(got) == 3:
+        return (got["technique"], got["level_claimed.text"], got["level_note"], f"DESIGN.md §4 {i}; notes/{i}.md")
+    return None
+built = set()
+try:
+    out = subprocess.run([os.path.join(ROOT, "harness/target/release/vcheck"), "list"], capture_output=True, text=True).stdout
+    built = {l.split()[0] for l in out.splitlines() if l.strip()}
+except Exception:
+    pass
+for i in ids:
+    if i in built and i not in CHECKS:
+        t = from_notes(i)
+        if t:
+            CHECKS[i] = t
+        else:
+            print("WARNING: no manifest text in notes for", i)
 NA = extra.get("not_applicable", {})
 hooks_commits = extra.get("hook_commits", [])
 
